@@ -268,6 +268,46 @@ def _remove(ctx, F):
                 fld, ', '.join(sorted(who))), detail='index-not-purged:' + fld, sink=fld)
 
 
+def _tests_active(b):
+    if any(c.is_(('Memvid::frame_is_active', 'is_frame_text_indexable')) for c in b.calls()):
+        return True
+    if lib.variant_test_edges(b, 'Frame', 'status', 'FrameStatus', 'Active'):
+        return True
+    for bb2, i, s in b.stmts():
+        rv = s['rv']
+        if rv['k'] == 'bin' and rv['op'] in ('Eq', 'Ne'):
+            if lib.slice_back(b, [rv['a']], through_calls=False).has_field('Frame', 'status') or lib.slice_back(b, [rv['b']], through_calls=False).has_field('Frame', 'status'):
+                return True
+        if rv['k'] == 'discr' and ('Frame', 'status') in Place(rv['p']).field_owners():
+            return True
+    return any(c.name in ('eq', 'ne') and 'FrameStatus' in (c.callee or '') for c in b.calls())
+
+
+def _site_guarded(F, f, bodies, clo, feed):
+    """True / False when the feed's own iterator chain can be followed, None when the shape is not recognised"""
+    if _tests_active(clo):
+        return True
+    parent = None
+    adaptor = None
+    for b in bodies:
+        for c in b.calls():
+            if c.name in ('map', 'filter_map', 'flat_map', 'for_each', 'extend', 'fold', 'try_for_each') and c.args:
+                if clo.path in lib.slice_back(b, c.args[1:], through_calls=False, at=(c.bb, None)).closures:
+                    parent, adaptor = b, c
+    if adaptor is None:
+        return None
+    sl = lib.slice_back(parent, adaptor.args[:1], through_calls=True, at=(adaptor.bb, None))
+    if not sl.has_field('Toc', 'frames'):
+        return None
+    for c in sl.calls:
+        if c.name in ('filter', 'filter_map', 'take_while', 'skip_while') and len(c.args) > 1:
+            for cp in lib.slice_back(parent, c.args[1:], through_calls=False, at=(c.bb, None)).closures:
+                g = F.fns.get(cp)
+                if g is not None and _tests_active(g):
+                    return True
+    return False
+
+
 def _feeders(ctx, F):
     n = 0
     for f in F.fns.values():
@@ -312,7 +352,22 @@ def _feeders(ctx, F):
             for bb2, i, s in b.stmts():
                 if s['rv']['k'] == 'discr' and ('Frame', 'status') in Place(s['rv']['p']).field_owners():
                     active = True
-        if active:
+        # per-site precision: a feed that sits in a closure of an iterator chain over toc.frames must have an Active test in
+        # *its own* chain (a preceding filter closure, or the feeding closure itself) - a test elsewhere in the function does not count
+        unguarded_site = None
+        for b in bodies:
+            if not b.is_closure:
+                continue
+            for c in b.calls():
+                if not (c.name in FEED_NAMES or c.is_(FEED_PATS)):
+                    continue
+                g = _site_guarded(F, f, bodies, b, c)
+                if g is False:
+                    unguarded_site = c
+        if active and unguarded_site is not None:
+            ctx.bad('GUARD-C08c', f, 'the iterator chain that feeds %s walks toc.frames without an Active test of its own (the function tests FrameStatus::Active only elsewhere): deleted and '
+                    'superseded frames enter that index' % unguarded_site.key.split('::')[-1], line=unguarded_site.line, detail='feed-chain-without-active-test:' + unguarded_site.key.split('::')[-1], sink=unguarded_site.key)
+        elif active:
             ctx.ok('GUARD-C08c', f, 'feeds %s and tests FrameStatus::Active' % ', '.join(x.split('::')[-1] for x in feeds))
         else:
             ctx.bad('GUARD-C08c', f, 'feeds %s from toc.frames without testing FrameStatus::Active: deleted/superseded frames would be indexed' % ', '.join(feeds),
